@@ -114,6 +114,18 @@ def mk_bin(op, a, b, ty):
         if r is not None:
             return C(r, a[2])
     if base in CMP:
+        # comparisons of an unsigned value with the type's bounds are decided by the type (`0..=N` patterns lower to `0 <= x && x <= N`)
+        for lo_side, x, c in ((True, b, a), (False, a, b)):
+            if is_c(c) and INT_BITS.get(c[2]) is not None and not is_signed(c[2]):
+                top = (1 << INT_BITS[c[2]]) - 1
+                if c[1] == 0:        # lo_side: 0 op x ; else: x op 0
+                    r = {"Le": True, "Gt": False}.get(base) if lo_side else {"Ge": True, "Lt": False}.get(base)
+                    if r is not None:
+                        return TRUE if r else FALSE
+                if c[1] == top:      # lo_side: MAX op x ; else: x op MAX
+                    r = {"Ge": True, "Lt": False}.get(base) if lo_side else {"Le": True, "Gt": False}.get(base)
+                    if r is not None:
+                        return TRUE if r else FALSE
         return ("bin", base, a, b, "bool")
     # light algebraic identities that keep terms small
     if base in ("Add", "BitOr", "BitXor") and is_c(b) and b[1] == 0:
